@@ -325,6 +325,10 @@ def dispatch(
             # Let extract_selector consume its own tokens
             # Note: must materialize generator immediately so tokens are consumed now
             peers = list(extract_selector(tokeniser, reactor, service))
+            if not peers:
+                # a selector which matches no peer is not "no selector": callers fall back to every peer
+                # when the list is empty, and the command would be applied to peers it explicitly excludes
+                raise NoMatchingPeers(f'no peer matches the selector starting with: {peeked}')
             node = node[SELECTOR_KEY]
             # Don't consume again - extract_selector already did
             if callable(node):
